@@ -368,7 +368,10 @@ def single_group_project(pj, gidx):
     g = pj["groups"][gidx]
     # a group is replayed together with its same-named twin of the other library
     gs = [x for x in pj["groups"] if x["gid"] == g["gid"]]
-    return {"id": "r%s" % g["gid"], "groups": gs, "flip": bool(pj.get("flip")), "layered": bool(pj.get("layered"))}
+    r = {"id": "r%s" % g["gid"], "groups": gs, "flip": bool(pj.get("flip")), "layered": bool(pj.get("layered"))}
+    if pj.get("libnames"):
+        r["libnames"] = pj["libnames"]
+    return r
 
 
 # ---------------------------------------------------------------------------------------------------
@@ -499,6 +502,8 @@ def evaluate(res0, tag, projects_path, out_path, mbin, d, stats, open_kf):
                 stats["third_party_groups" if third else "ordinary_groups"] += 1
                 if o.get("layered"):
                     stats["groups_under_layered_config"] += 1
+                if pj.get("libnames") and pj["libnames"][gv.lib] != pj["libnames"][gv.lib].lower():
+                    stats["groups_in_library_with_upper_case_name"] += 1
                 if o["marks"][gv.gidx].get("lib") == "lib2" or any(m["gid"] == gv.gid and m["lib"] == "lib2" for m in o["marks"]):
                     stats["groups_with_same_named_twin_in_other_library"] += 1
                 if len(res.samples) < 4 and gv.decls:
